@@ -170,6 +170,8 @@ def run(repo: Repo, rep: Report, tier: str) -> None:
     from . import c05 as _c05
     from ..core.report import Only as _Only
     _c05._exception_classes(repo, _Only(rep, {"R05.11"}))
+    from ..core import helper_contracts as _hc5
+    _hc5.report(repo, rep, "R09.7", _hc5.small_helper_contracts(repo), "mashumaro.core.meta.helpers::get_type_annotations / is_class_var / is_init_var")
 
 _ADDENDUM = " R09.5: get_discriminator(look_in_parents) walks the whole MRO, nearest first, through each class's own Config. R09.6: dataclass_fields drops an inherited Field when the class re-annotates the name without a Field of its own (no inherited alias / options)."
 EXPLANATION += _ADDENDUM
@@ -177,3 +179,6 @@ LEVEL_TEXT += _ADDENDUM
 _ADD6 = ' Borrowed: R05.11 (ExtraKeysError and the other exceptions report the objects they were given).'
 EXPLANATION += _ADD6
 LEVEL_TEXT += _ADD6
+_ADD18 = ' R09.7: get_type_annotations returns the Annotated metadata in written order; is_class_var / is_init_var keep their confirmed forms.'
+EXPLANATION += _ADD18
+LEVEL_TEXT += _ADD18
